@@ -11,7 +11,7 @@ import (
 func init() {
 	Registry["C16"] = RuleDef{Module: ".", Run: runC16,
 		Technique:   "same-index correspondence rule on the element-wise and pair-wise reply accessors (output slot i / i-th append is computed from input element i; map entries take the key from position 2i and the value from 2i+1 of a stride-2 walk)",
-		Explanation: "Decides only the positional skeleton of the collection accessors: (R16a) in AsStrSlice, AsIntSlice, AsFloatSlice, AsBoolSlice, AsXRange, AsXRangeSlices, AsZScores (both reply shapes) and DecodeSliceOfJSON every output element is computed from the input element with the same index (the flat ZSCORE shape: output i from input[2i:2i+2]) and every iteration of a full walk contributes its element; (R16b) in AsStrMap, AsIntMap and toMap each entry takes its key from position i and its value from position i+1 of one stride-2 walk starting at 0, so pairs are preserved in order (later duplicates overwrite earlier ones by map semantics).",
+		Explanation: "Decides only the positional skeleton of the collection accessors: (R16a) in AsStrSlice, AsIntSlice, AsFloatSlice, AsBoolSlice, AsXRange, AsXRangeSlices, AsZScores (both reply shapes) and DecodeSliceOfJSON every output element is computed from the input element with the same index (the flat ZSCORE shape: output i from input[2i:2i+2]) and every iteration of a full walk contributes its element; (R16b) in AsStrMap, AsIntMap and toMap each entry takes its key from position i and its value from position i+1 of one stride-2 walk starting at 0, so pairs are preserved in order (later duplicates overwrite earlier ones by map semantics); (R16c) AsInt64/AsUint64/AsFloat64 parse text replies with the parser of their own result type over the full 64-bit range in base 10 and take integer replies from intlen; (R16d) no As* helper uses a RESP3-strict To{Int64,Float64,Bool} accessor on reply elements, so the RESP2 shape (numbers as strings) is accepted wherever the RESP3 shape is.",
 		NotDecided:  "which number, boolean or string a scalar conversion yields (arithmetic on runtime contents), the structured helpers for search/aggregate/geo/pop replies, RESP2/RESP3 shape equivalence."}
 }
 
@@ -37,7 +37,74 @@ func elemOrWindow(v ssa.Value) (idx ssa.Value, window int64, ok bool) {
 	return i, 1, isel
 }
 
+// scalarParserRule (R16c): a scalar accessor parses string replies with the parser of its own result
+// type (full 64-bit range, base 10) and takes integer replies from intlen; (R16d) the shape-tolerant
+// As* helpers never use the RESP3-strict ToInt64/ToFloat64/ToBool accessors on reply elements
+// (a RESP2 server sends those values as strings).
+func scalarParserRule(r *Report) {
+	P := "rueidis.(*RedisMessage)."
+	for _, sp := range []struct{ name, parser string }{{"AsInt64", "strconv.ParseInt"}, {"AsUint64", "strconv.ParseUint"}, {"AsFloat64", "rueidis/internal/util.ToFloat64"}} {
+		fn := r.FnAnchor("R16c", P+sp.name)
+		if fn == nil {
+			continue
+		}
+		n := 0
+		for _, b := range fn.Blocks {
+			ret, ok := b.Instrs[len(b.Instrs)-1].(*ssa.Return)
+			if !ok {
+				continue
+			}
+			v := RetVals(ret)[0]
+			if _, isc := v.(*ssa.Const); isc {
+				continue
+			}
+			n++
+			good := false
+			why := DescDeep(v)
+			switch x := v.(type) {
+			case *ssa.Extract:
+				if c, isc := x.Tuple.(*ssa.Call); isc && CalleeName(c) == sp.parser && x.Index == 0 {
+					good = true
+					if strings.HasPrefix(sp.parser, "strconv.") {
+						base, ok1 := ConstInt(c.Call.Args[1])
+						bits, ok2 := ConstInt(c.Call.Args[2])
+						good = ok1 && ok2 && base == 10 && bits == 64
+					}
+					// the parsed text is the message's own string
+					src := c.Call.Args[0]
+					if !DependsOn(src, func(y ssa.Value) bool {
+						cc, is := y.(*ssa.Call)
+						return is && (CalleeName(cc) == P+"ToString" || CalleeName(cc) == P+"string")
+					}) {
+						good = false
+					}
+				}
+			default:
+				// integer reply: intlen, possibly converted to the result type
+				d := DescDeep(v)
+				good = strings.HasSuffix(strings.TrimSuffix(d, ")"), ".intlen") || strings.Contains(d, "p0.intlen")
+			}
+			r.ObSite("R16c", SiteOf(ret), "parsed-with-the-result-types-parser", good, sp.name+" returns intlen of an integer reply or "+sp.parser+"(text, 10, 64) of the reply's text: "+why)
+		}
+		r.Anchor("R16c", sp.name+": value returns (2)", n == 2)
+	}
+	nAs := 0
+	for _, fn := range r.P.Funcs(P + "As") {
+		if fn.Parent() != nil {
+			continue
+		}
+		nAs++
+		for _, f := range WithAnons(fn) {
+			for _, s := range CallSites(f, P+"ToInt64", P+"ToFloat64", P+"ToBool") {
+				r.ObSite("R16d", s, "strict-accessor-in-shape-tolerant-helper", false, "an As* helper must accept the RESP2 shape (numbers as strings) and therefore uses AsInt64/AsFloat64/AsBool, not the RESP3-strict "+CalleeName(s.Call()))
+			}
+		}
+	}
+	r.Ob("R16d", nil, "As-helpers-scanned", token.NoPos, nAs >= 25, fmt.Sprintf("%d As* helpers scanned for RESP3-strict element accessors", nAs))
+}
+
 func runC16(r *Report) {
+	scalarParserRule(r)
 	P := "rueidis.(*RedisMessage)."
 	for _, name := range []string{P + "AsStrSlice", P + "AsIntSlice", P + "AsFloatSlice", P + "AsBoolSlice", P + "AsXRange", P + "AsXRangeSlices", P + "AsZScores", "rueidis.DecodeSliceOfJSON"} {
 		fn := r.FnAnchor("R16a", name)
